@@ -301,9 +301,13 @@ def extract(tree):
             seen.add(lab)
         if labels == ("default",):
             continue
-        if leaks(text, r"s->mode\s*=\s*PEG_MODE_\w+\s*;", r"s->mode\s*=\s*oldmode\s*;"):
+        # the locals that hold the value to restore are recognised by their initialiser, not by their name
+        modes = re.findall(r"\bint\s+(\w+)\s*=\s*s->mode\s*;", text)
+        ends = re.findall(r"\*\s*(\w+)\s*=\s*s->text_end\s*;", text)
+        alt = lambda names: "(?:%s)" % "|".join(map(re.escape, names)) if names else r"(?!x)x"
+        if leaks(text, r"s->mode\s*=\s*PEG_MODE_\w+\s*;", r"s->mode\s*=\s*%s\s*;" % alt(modes)):
             mode_leaks += list(labels)
-        if leaks(text, r"s->text_end\s*=\s*(?!saved_end)\w+\s*;", r"s->text_end\s*=\s*saved_end\s*;"):
+        if leaks(text, r"s->text_end\s*=\s*(?!%s\s*;)[^;]+;" % alt(ends), r"s->text_end\s*=\s*%s\s*;" % alt(ends)):
             window_leaks += list(labels)
     missing = [o for o in ops if o not in seen]
     if missing:
